@@ -22,7 +22,7 @@ func init() { register(c03{}); register(c07{}) }
 func (c03) ID() string { return "C03" }
 func (c03) Rule() string {
 	return "jpegls/lossless.Encode -> Decode, byte and geometry equality. cases: (enum) complete enumeration of all images of small geometries at P=2..4 (batched, distinct by construction); " +
-		"(cell) P in 2..16 x components {1,3} x content classes (noise, two-level, alternating extremes, runs with outliers, runs ending at the line end, ramps, width/height 1) x boundary sizes; (reset) images with >64 samples per context; (long) 65535x1 / 1x65535 incl. constant (RUNindex 31). " +
+		"(cell) P in 2..16 x components {1,3} x content classes (noise, two-level, alternating extremes, runs with outliers, runs ending at the line end, ramps, width/height 1) x boundary sizes; (reset) images with >64 samples per context; (long) 65535x1 / 1x65535 incl. constant (RUNindex 31); (runlimit) flat run of 1..24(40) samples, one outlier sweeping the whole range in both polarities, 1..3 rows (run-interruption code at every prefix length around its escape limit). " +
 		"non-trivial: the encoder accepted the image and the decoder output was compared; distinct = distinct descriptor"
 }
 func (c03) Assumptions() []string {
@@ -80,6 +80,14 @@ func (c03) Build(tier string, seed uint64) []any {
 			r := gen.Sub(seed, "C03", "reset", p*2+c)
 			cs = append(cs, &imgCase{Gen: "reset", W: 96 + r.Intn(64), H: 80 + r.Intn(40), C: c, P: p, Class: gen.Pick(r, "noise", "smooth", "lowent"), CSeed: r.U64()})
 		}
+	}
+	// (runlimit) run interruption at every Golomb prefix length around the escape limit, at the
+	// RUNindex values small run histories leave behind (see runLimitEnumerate)
+	if th {
+		add(runLimitBatches([]int{4, 6, 7, 8, 9, 10, 11, 12, 13, 14, 15, 16}, []int{1, 3}, []int{0}, 40, []int{1, 2, 3}))
+	} else {
+		add(runLimitBatches([]int{6, 8, 10, 12, 16}, []int{1}, []int{0}, 24, []int{1, 2}))
+		add(runLimitBatches([]int{8, 12}, []int{3}, []int{0}, 12, []int{1}))
 	}
 	for j, p := range []int{2, 5, 8, 12, 16} {
 		if !th && j%2 == int(seed%2) {
@@ -149,6 +157,21 @@ func (c03) Exec(d any) mon.Result {
 		}
 		return res
 	}
+	if c.Gen == "runlimit" {
+		var fc, fm string
+		res.Sub = c.runLimitEnumerate(func(s []int) bool {
+			cl, msg, _ := c03RT(s, c.W, c.H, c.C, c.P)
+			if cl != "" {
+				fc, fm = cl, fmt.Sprintf("row of %d background samples then outlier %d (background %d): %s", c.Aux, s[((c.H-1)*c.W+c.Aux)*c.C], s[0], msg)
+				return false
+			}
+			return true
+		})
+		if fc != "" {
+			res.V, res.Class, res.Msg = mon.Violated, fc, fm
+		}
+		return res
+	}
 	res.Cell("class=" + c.Class)
 	cl, msg, n := c03RT(c.samples(), c.W, c.H, c.C, c.P)
 	res.AddFeat("stream_bytes", int64(n))
@@ -163,7 +186,7 @@ func (c03) Exec(d any) mon.Result {
 func (c07) ID() string { return "C07" }
 func (c07) Rule() string {
 	return "jpegls/nearlossless.Encode(NEAR) -> Decode; per sample |decoded-source| <= NEAR and 0 <= decoded <= 2^P-1, reported NEAR and geometry equal, NEAR=0 exact. " +
-		"cases: every NEAR in 0..min(255,(2^P-1)/2) for every P in 2..16 (quick: every NEAR at P in {2,3,4,8,12,16}, sampled elsewhere) x components {1,3} x content classes (edges within NEAR of 0/MAXVAL, ramps with step 2*NEAR+1 and 2*NEAR, noise, two-level, runs with outliers). " +
+		"cases: every NEAR in 0..min(255,(2^P-1)/2) for every P in 2..16 (quick: every NEAR at P in {2,3,4,8,12,16}, sampled elsewhere) x components {1,3} x content classes (edges within NEAR of 0/MAXVAL, ramps with step 2*NEAR+1 and 2*NEAR, noise, two-level, runs with outliers); (runlimit) flat run, one outlier sweeping the whole range in both polarities, NEAR 0..3(7) (run-interruption code around its escape limit). " +
 		"non-trivial: encoder accepted and every sample was compared; distinct = distinct descriptor"
 }
 func (c07) Assumptions() []string                   { return []string{"self round trip only"} }
@@ -218,6 +241,17 @@ func (c07) Build(tier string, seed uint64) []any {
 			}
 		}
 	}
+	// (runlimit) run interruption around the Golomb escape limit (see runLimitEnumerate), NEAR 0..3
+	var rl []*imgCase
+	if th {
+		rl = runLimitBatches([]int{4, 6, 8, 9, 10, 11, 12, 14, 16}, []int{1, 3}, []int{0, 1, 2, 3, 7}, 40, []int{1, 2, 3})
+	} else {
+		rl = runLimitBatches([]int{8, 10, 12, 16}, []int{1}, []int{0, 1, 3}, 16, []int{1, 2})
+		rl = append(rl, runLimitBatches([]int{8, 12}, []int{3}, []int{1, 2}, 8, []int{1})...)
+	}
+	for _, x := range rl {
+		cs = append(cs, x)
+	}
 	for j, g := range areaSizes(th, seed) {
 		for k, pn := range [][2]int{{8, 1}, {8, 3}, {12, 2}, {16, 1}, {16, 255}} {
 			if !th && (j+k+int(seed))%2 == 0 {
@@ -237,7 +271,30 @@ func (c07) Exec(d any) mon.Result {
 	res.Cell(fmt.Sprintf("P=%02d/NEAR=%03d", c.P, c.Sel))
 	res.Cell("class=" + c.Class)
 	near := c.Sel
-	s := c.samples()
+	if c.Gen == "runlimit" {
+		var bad *mon.Result
+		res.Sub = c.runLimitEnumerate(func(s []int) bool {
+			r := c07One(c, s, near)
+			if r.V == mon.Violated {
+				r.Msg = fmt.Sprintf("row of %d background samples then outlier %d (background %d): %s", c.Aux, s[((c.H-1)*c.W+c.Aux)*c.C], s[0], r.Msg)
+				bad = &r
+				return false
+			}
+			return true
+		})
+		if bad != nil {
+			res.V, res.Class, res.Msg = bad.V, bad.Class, bad.Msg
+		}
+		return res
+	}
+	r := c07One(c, c.samples(), near)
+	r.Cells = res.Cells
+	return r
+}
+
+// c07One judges one image.
+func c07One(c *imgCase, s []int, near int) mon.Result {
+	res := mon.Hold()
 	px := gen.Pack(s, c.P)
 	keep := append([]byte(nil), px...)
 	enc, err := jlsn.Encode(px, c.W, c.H, c.C, c.P, near)
